@@ -541,7 +541,7 @@ pub fn run(ctx: &Ctx) -> Outcome {
     out.cov("seam_bypass", json!(bypass));
     out.cov("impurity_scan (mentions of env, time, statics, atomics, locks, addresses, files in kiki/src)", json!(impurity_scan()));
     out.cov("environment_variables_read_by_kiki (set in one of the free-running children)", json!(env_names_read_by_kiki()));
-    out.cov("free_running_pass", json!({"kind": "sampling (supplementary, never the verdict)", "child_processes": children, "result": match &free { Ok(n) => json!(format!("{n} inputs, each visited 3 times on different threads in every process, the processes visiting them in different orders and under different environments (RUST_LOG, RUST_BACKTRACE, LANG, TZ, HOME, working directory, DEBUG / VERBOSE / KIKI_* and every variable kiki's source reads): one digest per input")), Err(f) => json!(f.what) }}));
+    out.cov("free_running_pass", json!({"kind": "enumeration of 4 environment classes x 2 visiting orders (sequential / overlapping) in 8 processes - exhaustive over the listed environments; the hash keys are the real RandomState's, i.e. sampled: a difference found here is a counterexample and is reported, silence here says nothing about hash order (the schedule exploration decides that)", "child_processes": children, "result": match &free { Ok(n) => json!(format!("{n} inputs, each visited 3 times on different threads in every process, the processes visiting them in different orders and under different environments (RUST_LOG, RUST_BACKTRACE, LANG, TZ, HOME, working directory, DEBUG / VERBOSE / KIKI_* and every variable kiki's source reads): one digest per input")), Err(f) => json!(f.what) }}));
     out.cov("samples", json!(samples));
     out.cov("explanation", json!("one state = one execution of the real generate under a schedule of hash-iteration orders installed through the kiki::verif_collections seam; one transition = one choice point at which the schedule departs from or follows the identity order; all n! orders are tried where n! is below the cap, otherwise the generator set (adjacent transpositions, reversal, rotations); the same schedule is run twice and a replayed prefix must pass the same choice points (otherwise exit 2); every execution is an execution of the implementation"));
     out.violating_cases = acc.violating;
